@@ -27,12 +27,19 @@ pub enum Rx {
     Locked,
     Other,
     Running,
+    /// 128K: the paging latch already holds exactly the byte the file carries (lock bit included)
+    SameLatch,
 }
 
-fn receiver(m128: bool, rx: Rx) -> Emu {
+fn receiver(m128: bool, rx: Rx, latch: u8) -> Emu {
     let mut e = machine(m128);
     match rx {
         Rx::Fresh => {}
+        Rx::SameLatch => {
+            if m128 {
+                rig::cpu_out(&mut e, OUTCODE, 0x7FFD, latch);
+            }
+        }
         Rx::Halted => {
             rig::poke(&mut e, 0x8000, &[0x76]);
             e.verif_cpu().regs.set_pc(0x8000);
@@ -100,10 +107,22 @@ fn encode(s: &MState, enc: Enc, halted: bool) -> Vec<u8> {
     }
 }
 
+fn enc_ordinal(e: Enc) -> usize {
+    match e {
+        Enc::Sna => 0,
+        Enc::Szx { compressed, order, unknown, minor } => 1 + compressed as usize + 2 * order as usize + unknown as usize + minor as usize,
+    }
+}
+
 fn load(e: &mut Emu, enc: Enc, file: Vec<u8>) -> Result<Result<(), String>, String> {
+    load_chunked(e, enc, file, 0)
+}
+
+/// `chunk` > 0: the asset never returns more than that many bytes per read call
+fn load_chunked(e: &mut Emu, enc: Enc, file: Vec<u8>, chunk: usize) -> Result<Result<(), String>, String> {
     let r = std::panic::catch_unwind(std::panic::AssertUnwindSafe(|| match enc {
-        Enc::Sna => e.load_snapshot(Snapshot::Sna(VAsset::new(file))),
-        Enc::Szx { .. } => e.load_snapshot(Snapshot::Szx(VAsset::new(file))),
+        Enc::Sna => e.load_snapshot(Snapshot::Sna(VAsset::new(file).chunked(chunk))),
+        Enc::Szx { .. } => e.load_snapshot(Snapshot::Szx(VAsset::new(file).chunked(chunk))),
     }));
     match r {
         Ok(Ok(())) => Ok(Ok(())),
@@ -180,8 +199,10 @@ fn ay_readback(e: &mut Emu) -> Vec<u8> {
 fn check_absolute(ctx: &Ctx, m128: bool, variant: usize, s: &MState, enc: Enc, rx: Rx) -> Option<Emu> {
     let mname = if m128 { "128k" } else { "48k" };
     let case = json_case(m128, variant, enc, rx, "absolute");
-    let mut e = receiver(m128, rx);
-    match load(&mut e, enc, encode(s, enc, false)) {
+    let mut e = receiver(m128, rx, s.port7ffd);
+    // the file arrives through an asset that returns short reads of a size rotating with the case
+    let chunk = [0usize, 1, 2, 3, 7, 127, 128, 129][(variant + rx as usize * 3 + enc_ordinal(enc)) % 8];
+    match load_chunked(&mut e, enc, encode(s, enc, false), chunk) {
         Ok(Ok(())) => {}
         Ok(Err(err)) => {
             ctx.violation(&format!("C14:load-error:{}:{}", enc_class(enc), mname), &format!("well-formed {} for the matching model rejected: {}", enc_name(enc), err), case);
@@ -372,7 +393,7 @@ fn encodings(quick: bool, m128: bool) -> Vec<Enc> {
 
 fn states_x_encodings(ctx: &Ctx, quick: bool) {
     let nvar = if quick { 6 } else { 30 };
-    let rxs = [Rx::Fresh, Rx::Halted, Rx::MidPrefix, Rx::Locked, Rx::Other, Rx::Running];
+    let rxs = [Rx::Fresh, Rx::Halted, Rx::MidPrefix, Rx::Locked, Rx::Other, Rx::Running, Rx::SameLatch];
     let mut jobs = Vec::new();
     for m128 in [false, true] {
         for v in 0..nvar {
@@ -385,7 +406,7 @@ fn states_x_encodings(ctx: &Ctx, quick: bool) {
         let mut digests: Vec<(Enc, Rx, u64)> = Vec::new();
         for enc in encodings(quick, m128) {
             for (k, rx) in rxs.iter().enumerate() {
-                if quick && (k + variant) % 2 == 1 && *rx != Rx::Fresh {
+                if (quick && (k + variant) % 2 == 1 && *rx != Rx::Fresh && *rx != Rx::SameLatch) || (*rx == Rx::SameLatch && !m128) {
                     continue;
                 }
                 ctx.add_eval(1);
@@ -473,11 +494,13 @@ fn audible_ay(ctx: &Ctx) {
 /// HALTED and EILAST flags of SZX
 fn halted_and_eilast(ctx: &Ctx) {
     for m128 in [false, true] {
-        for pc_after_halt in [true, false] {
-            // program: X-1: HALT ; X: INC A ; X+1: INC B ; X+2: JR $ ; interrupts on, IM 1
+        for (pc_after_halt, halt_byte_before) in [(true, false), (false, false), (false, true), (true, true)] {
+            // program: X-1: HALT ; X: INC A ; X+1: INC B ; X+2: JR $ ; interrupts on, IM 1.
+            // `halt_byte_before`: the byte at X-2 is 76h as well (e.g. the operand of LD A,76h)
             let x: u16 = 0x9001;
             let mut s = state(m128, 2);
             s.banks[2][0x1000..0x1005].copy_from_slice(&[0x76, 0x3C, 0x04, 0x18, 0xFE]);
+            s.banks[2][0x0FFE..0x1000].copy_from_slice(&if halt_byte_before { [0x3E, 0x76] } else { [0x3E, 0x00] });
             s.regs.pc = if pc_after_halt { x } else { x - 1 };
             s.regs.iff1 = true;
             s.regs.iff2 = true;
@@ -492,56 +515,68 @@ fn halted_and_eilast(ctx: &Ctx) {
                 continue;
             }
             ctx.add_eval(1);
-            // step until the interrupt is accepted (IFF1 drops) or a frame and a half has passed
+            // step until INC A has run (back in the program with A changed); count the interrupts
+            // accepted on the way: exactly one releases the HALT the file describes
             let mut visible = None;
             let f0 = e.verif_total_frames();
             let mut pushed = None;
-            for _ in 0..40000 {
+            let mut accepts = 0u32;
+            let mut prev_iff1 = true;
+            for _ in 0..400000 {
                 rig::step(&mut e);
                 let v = rig::regs_view(e.verif_cpu());
-                if !v.iff1 {
-                    let sp = v.sp;
-                    // the ROM handler may have pushed more: the return address is the first word pushed (SP0-2)
-                    let a = s.regs.sp.wrapping_sub(2);
-                    pushed = Some(e.peek(a) as u16 | (e.peek(a.wrapping_add(1)) as u16) << 8);
-                    let _ = sp;
-                    break;
+                if prev_iff1 && !v.iff1 && (0x0038..0x0040).contains(&v.pc) {
+                    accepts += 1;
+                    if pushed.is_none() {
+                        // the ROM handler may have pushed more: the return address is the first word pushed (SP0-2)
+                        let a = s.regs.sp.wrapping_sub(2);
+                        pushed = Some(e.peek(a) as u16 | (e.peek(a.wrapping_add(1)) as u16) << 8);
+                    }
                 }
-                if v.af >> 8 != 0x10 || v.bc >> 8 != 0x20 {
+                prev_iff1 = v.iff1;
+                if (0x9000..0x9010).contains(&v.pc) && (v.af >> 8 != 0x10 || v.bc >> 8 != 0x20) {
                     visible = Some((v.af, v.bc, v.pc));
                     break;
                 }
-                if e.verif_total_frames() > f0 + 2 {
+                if e.verif_total_frames() > f0 + 4 {
                     break;
                 }
             }
-            let conv = if pc_after_halt { "pc-after-halt" } else { "pc-on-halt" };
-            if let Some((af, bc, pc)) = visible {
-                if pc_after_halt {
+            let conv = format!("{}{}", if pc_after_halt { "pc-after-halt" } else { "pc-on-halt" }, if halt_byte_before { ":76h-before-the-halt" } else { "" });
+            let case = json!({"kind":"halted","m128":m128,"convention":conv});
+            match (visible, accepts) {
+                (Some((af, bc, pc)), 0) => {
                     ctx.violation(
-                        &format!("C14:halted:executes-instructions:{}", if m128 { "128k" } else { "48k" }),
+                        &format!("C14:halted:executes-instructions{}:{}", if pc_after_halt { "" } else { "-pc-on-halt" }, if m128 { "128k" } else { "48k" }),
                         &format!("SZX with HALTED set and PC={:04x} (HALT at {:04x}): the machine executed instructions before any interrupt (AF={:04x} BC={:04x} PC={:04x})", s.regs.pc, x - 1, af, bc, pc),
-                        json!({"kind":"halted","m128":m128,"convention":conv}),
+                        case,
                     );
                 }
-                // with PC on the HALT itself both conventions agree that nothing visible may run
-                else {
+                (Some(_), 1) => {
+                    let p = pushed.unwrap_or(0);
+                    if p != x {
+                        ctx.violation(
+                            &format!("C14:halted:pushed-address:{}", conv),
+                            &format!("SZX HALTED with PC={:04x} (HALT at {:04x}): the interrupt that released the HALT pushed {:04x}, the instruction after the HALT is at {:04x}", s.regs.pc, x - 1, p, x),
+                            case,
+                        );
+                    }
+                    ctx.outcome(p as u64 ^ (halt_byte_before as u64) << 20);
+                }
+                (Some(_), n) => {
                     ctx.violation(
-                        &format!("C14:halted:executes-instructions-pc-on-halt:{}", if m128 { "128k" } else { "48k" }),
-                        &format!("SZX with HALTED set and PC on the HALT opcode {:04x}: instructions executed before any interrupt (AF={:04x} BC={:04x})", s.regs.pc, af, bc),
-                        json!({"kind":"halted","m128":m128,"convention":conv}),
+                        &format!("C14:halted:needs-{}-interrupts:{}", n, conv),
+                        &format!("SZX HALTED with PC={:04x} (HALT at {:04x}, byte before it {:02x}): {} interrupts were accepted before the instruction after the HALT ran; the state the file describes leaves HALT on the first one", s.regs.pc, x - 1, if halt_byte_before { 0x76 } else { 0 }, n),
+                        case,
                     );
                 }
-            } else if let Some(p) = pushed {
-                let ok = p == s.regs.pc || p == s.regs.pc.wrapping_add(1);
-                if !ok {
+                (None, n) => {
                     ctx.violation(
-                        &format!("C14:halted:pushed-address:{}", conv),
-                        &format!("SZX HALTED with PC={:04x}: the interrupt pushed {:04x} (accepted: PC or PC+1)", s.regs.pc, p),
-                        json!({"kind":"halted","m128":m128,"convention":conv}),
+                        &format!("C14:halted:never-continues:{}", conv),
+                        &format!("SZX HALTED with PC={:04x}: the instruction after the HALT did not run within 4 frames ({} interrupts accepted)", s.regs.pc, n),
+                        case,
                     );
                 }
-                ctx.outcome(p as u64);
             }
         }
         // EILAST: no interrupt at the first boundary
@@ -633,7 +668,7 @@ fn scr_files(ctx: &Ctx) {
         for k in 0..4usize {
             for rx in [Rx::Fresh, Rx::Halted, Rx::MidPrefix, Rx::Other] {
                 let content: Vec<u8> = (0..6912).map(|a| if a < 6144 { ((a * 17 + k * 31) % 256) as u8 } else { ((a * 29 + k) % 128) as u8 }).collect();
-                let mut e = receiver(m128, rx);
+                let mut e = receiver(m128, rx, 0);
                 let r = std::panic::catch_unwind(std::panic::AssertUnwindSafe(|| e.load_screen(Screen::Scr(VAsset::new(scr(&content))))));
                 ctx.add_eval(1);
                 let case = json!({"kind":"scr","m128":m128,"k":k,"receiver":format!("{:?}", rx)});
@@ -695,7 +730,7 @@ pub fn run(tier: Tier, seed: u64, replay: Option<String>) -> i32 {
     ctx.sample(json_case(true, 3, Enc::Szx { compressed: true, order: 4, unknown: false, minor: 4 }, Rx::Locked, "absolute"));
     ctx.note("not_judged", json!("which of the two published conventions (PC on the HALT / after it) an SZX with HALTED uses; IFF1 and AY/hidden latches for SNA (not carried); mouse presence is checked only through SZX"));
     ctx.finish(
-        "abstract states (registers incl. alternates, IM, I/R boundary values, border, six paging values incl. shadow screen and lock, position-coded RAM in all banks, pictures in both screens, AY register file) written by the spec-based writers as SNA, SZX stored, SZX zlib, SZX in 6 chunk orders, SZX with unknown chunks interleaved, v1.4/1.5; loaded into six receivers (fresh, halted, mid FD prefix, paging locked, everything different incl. AY, ROM running mid-frame); absolute oracle: registers, IFFs, IM, HALT/prefix/EI latches cleared, border, paging latch+lock+map, every RAM bank, AY selected register and all 16 registers read back through the ports, picture after 3 frames = decode of the file's displayed screen; differential: all encodings x receivers of one state end in the same digest of registers, RAM and both frame buffers; audible AY state vs a port-written reference; HALTED (both PC conventions) and EILAST; files for the other model; SCR into four receivers. distinct_nontrivial = loads",
+        "abstract states (registers incl. alternates, IM, I/R boundary values, border, six paging values incl. shadow screen and lock, position-coded RAM in all banks, pictures in both screens, AY register file) written by the spec-based writers as SNA, SZX stored, SZX zlib, SZX in 6 chunk orders, SZX with unknown chunks interleaved, v1.4/1.5; loaded through assets returning short reads of rotating sizes {whole,1,2,3,7,127,128,129} into seven receivers (fresh, halted, mid FD prefix, paging locked, everything different incl. AY, ROM running mid-frame, paging latch already equal to the file's byte); absolute oracle: registers, IFFs, IM, HALT/prefix/EI latches cleared, border, paging latch+lock+map, every RAM bank, AY selected register and all 16 registers read back through the ports, picture after 3 frames = decode of the file's displayed screen, and of the other screen after the program flips bit 3; differential: all encodings x receivers of one state end in the same digest of registers, RAM and both frame buffers; audible AY state vs a port-written reference; HALTED (both PC conventions, also with a 76h byte in front of the HALT; exactly one interrupt must release it and return behind the HALT) and EILAST; files for the other model; SCR into four receivers. distinct_nontrivial = loads",
         false,
         &["writers in formats.rs follow the published SNA/SZX layouts, not the loaders"],
     )
